@@ -230,6 +230,7 @@ def c10(tier, seed, work):
     res["coverage"]["rule"] += (" Over UDP loopback with the library's own back-off: node busy once or twice, each answered promptly, then the "
                                 "final answer, in and out of a session, per-attempt timeouts 150 and 300 ms (shorter than the back-off pauses): "
                                 "the command must return that answer (three-fold reproduction for a violation).")
+    res = add_udpwire(res, work, "c10-udpwire", tier, seed)
     res = add_hs(res, work, [dict(name="c10-long", family="long", tier=tier, seed=seed)],
                  "80 (thorough: 400) commands in a row on one session per suite: a valid final response ends each of them.")
     return add_walk(res, work, [dict(name="c10-lun", module="MCGenSensor", cfg_tpl="Gen_Cipher.cfg.tpl", family="lun", tier=tier, seed=seed),
@@ -264,7 +265,7 @@ def c11(tier, seed, work):
                 dict(name="c11-samenum-s", insess=True, cmds="CmdsRQ", maxcalls=2, maxatt=3, kinds="KindsDesync", auth=a, integ=i),
                 dict(name="c11-samenum-n", insess=False, cmds="CmdsRQ", maxcalls=2, maxatt=3, kinds="KindsDesync", auth=1, integ=1)]
         mc = [("MCConsole", "MC_Console_sess.cfg"), ("MCConsole", "MC_Console_nosess.cfg")]
-    return console_check("C11", tier, seed, work, mc, fams, COMMON_ASSUME)
+    return add_udpwire(console_check("C11", tier, seed, work, mc, fams, COMMON_ASSUME), work, "c11-udpwire", tier, seed)
 
 
 def c04(tier, seed, work):
@@ -501,11 +502,13 @@ def c03(tier, seed, work):
                    "Every library command with its request fields inside a session (GenApi). The retransmissions that follow every "
                    "tampered, truncated (AuthCode too short, too long, missing) or forged reply of GenForge.")
     res["level"] = "exploration"
+    res = add_udpwire(res, work, "c03-udpwire", tier, seed)
+    wire_note = res["coverage"]["rule"][res["coverage"]["rule"].rfind(" Over UDP loopback"):]
     res["coverage"]["rule"] = ("Every in-session datagram recorded from the real library is parsed by TLC (wrapper, integrity pad, "
                                "AuthCode verdict under the BMC-side K1, IV, ciphertext length, confidentiality pad, message checksums, "
                                "inner command) in three families: honest sessions for all 9 suites with raw commands of body length "
                                "0..40 (every residue mod 4 and mod 16), long histories for IV freshness, and exhaustive retry outcome "
-                               "sequences (retransmissions after busy / bad signature / garbage). Distinct = distinct scripts.")
+                               "sequences (retransmissions after busy / bad signature / garbage). Distinct = distinct scripts." + wire_note)
     return res
 
 
@@ -718,6 +721,25 @@ def c17(tier, seed, work):
                                 dict(name="c17-sdr-events", module="MCGenSdr", cfg_tpl="Gen_Cipher.cfg.tpl", family="events17", tier=tier, seed=seed)],
                     "Connection level: every command once on one connection / session in table order and in reverse order; the value decoded "
                     "for each command in the reversed history must still agree with the specification (nothing survives from earlier responses).")
+
+
+def add_udpwire(res, work, name, tier, seed):
+    """The library's own socket transport against a scripted BMC on the loopback, with the datagrams judged (GenTiming family
+    `udpwire`): a slow reply, a first reply that is not RMCP, a stray datagram behind the answer. Real time: a violation
+    only counts when it reproduces in three independent runs."""
+    rt = confirmed_realtime(work, lambda nm: F.walk_family(work, nm, "MCGenTiming", "Gen_Cipher.cfg.tpl", "udpwire", tier, seed, workers=8), name)
+    require_accepted([rt])
+    ex = flatten(rt)
+    attach_scripts(ex)
+    res["viols"] += ex
+    res["coverage"]["families"] += fam_cov([rt])
+    res["coverage"]["evaluations"] += rt["scripts"]
+    res["coverage"]["distinct_nontrivial"] += rt["scripts"]
+    res["coverage"]["rule"] += (" Over UDP loopback with the library's own transport, every datagram judged: an in-session reply that takes "
+                                "three quarters of the per-attempt timeout, a first reply that is not RMCP (empty, shorter than the header, "
+                                "another version), a session-less retransmission whose answer is followed by a stray datagram "
+                                "(three-fold reproduction for a violation).")
+    return res
 
 
 def add_hs(res, work, hs_specs, note):
